@@ -46,13 +46,16 @@ Proof. unfold join_rows, first_pair_rpos, seg0. cbn [erase_row rsegs qid rid qle
     unfold er_pair. cbn [fst snd]. rewrite <- ES_er. change [erase_segment x; erase_segment y] with (map erase_segment [x; y]).
     rewrite row_create_E. reflexivity. Qed.
 
+Lemma joined_ok_E j : joined_ok (erase_row j) = joined_ok j.
+Proof. exact (row_has_pairs_E j). Qed.
 Definition erase_2 (js : list row * list row) : list row * list row := (map erase_row (fst js), map erase_row (snd js)).
 Lemma resolve_groups_E m groups : resolve_groups m (map (map erase_row) groups) = map_res erase_2 (resolve_groups m groups).
 Proof. induction groups as [|g t IH]; [reflexivity|]. cbn [map resolve_groups]. rewrite IH.
   destruct (resolve_groups m t) as [r|]; cbn [bind map_res]; [|reflexivity].
   destruct g as [|x [|y u]]; cbn [map]; [destruct r; reflexivity|reflexivity|].
   rewrite check_overlap_E. destruct (check_overlap x y m).
-  - rewrite join_rows_E. destruct (join_rows x y); reflexivity.
+  - rewrite join_rows_E. destruct (join_rows x y) as [j|]; cbn [bind map_res]; [|reflexivity]. rewrite joined_ok_E.
+    destruct (joined_ok j); [reflexivity|]. unfold erase_2. cbn [fst snd map_res]. rewrite map_app. reflexivity.
   - unfold erase_2. cbn [fst snd map_res]. rewrite map_app. reflexivity. Qed.
 Lemma by_query_E (gs : list (list row)) :
   flat_map (fun byref => groupby qid (sort_by qid byref)) (map (map erase_row) gs) =
